@@ -9,6 +9,7 @@ import PydapModel.TableVal
 import Proofs.IterDataSim
 import PydapModel.IterNest
 import Proofs.IterNestSim
+import Proofs.IterDataSrc
 namespace Pydap.C17
 open Pydap Pydap.IterData
 
@@ -332,5 +333,119 @@ example : ∃ s', IterNest.getitem litVal (IterNest.mkIterData exNSrc ['s'] exHd
   ⟨_, rfl, rfl, rfl⟩
 
 end Nested
+
+/-! ### the tie by translation: the *source text* of `IterData.__getitem__` and `IterData.__iter__`
+
+`Gen.src_iterdata_getitem` is the body of `__getitem__` after `out = copy.copy(self)`, `Gen.src_iterdata_iter` the whole
+body of `__iter__`, both translated on every run by harness/py2lean.py from the working tree (PydapModel/Generated/
+IterDataSrc.lean).  Interpreted by MiniPy, the source extends exactly the list the model's `getitem` extends, at the same
+end, with the closure the model records — for every stream, every key and EVERY naming `E` of the opaque objects
+(closures, templates) by tags.  Inputs of the block, bound in `giEnv` to what the model computes: `list(self.template.keys())`
+(the visible keys), `out.template[key]`, the comprehension of column indices, and the results of the three calls that make
+closures; the ARGUMENTS the source passes to these calls are part of the statements (`@item_map.arg0/1`: the column and
+the level AFTER `out.level += 1`; `@proj_map.arg0/1`; `@build_filter.arg1`: `self.root`, not `self.template`).
+Not carried: `copy.copy(self)` (the fields of `out` are inputs), the text of the `KeyError`, what `deep_map` /
+`build_filter` compute from their arguments (hand-written model + correspondence run). -/
+
+section SourceTie
+open MiniPy
+
+/-- **`stream["name"]`**: `KeyError` when the name is not visible; otherwise `out.level` is one more, `out.template` is
+    the child, and `deep_map(itemgetter(col), out.level)` — called with the position of the name among the visible keys
+    and the NEW level — is appended to `imap`; `ifilter` and `islice` are untouched -/
+theorem C17_source_getitem_str (E : IEnc A) (lit : List Char → Option A) (s : Stream A) (t : SeqT) (k : Name)
+    (ht : s.template = .seq t) (i : GiIn)
+    (hv : i.vis = strListVal (t.visible.map codesOf))
+    (hc : i.child = .obj (E.tmpl (.base (t.id ++ '.' :: k))))
+    (hm : i.item = .obj (E.map (.item (t.visible.idxOf k) (s.level + 1)))) :
+    runItems (giEnv E s (keyVal E (.str k)) false i) Gen.src_iterdata_getitem
+        (streamFields ++ ["out.template", "@item_map.arg0", "@item_map.arg1"])
+      = (match getitem lit s (.str k) with
+         | .ok s' => .ok (streamVals E s' ++ [.obj (E.tmpl s'.template), .int (t.visible.idxOf k), .int s'.level])
+         | .error _ => .error (.raised "KeyError")) :=
+  src_getitem_str E lit s t k ht i hv hc hm
+
+/-- **`stream[["a", "b"]]`**: the key becomes `_visible_keys` of the (copied) template, the row projection — called
+    with the column indices and `out.level + 1` — is appended to `imap`; the level stays -/
+theorem C17_source_getitem_list (E : IEnc A) (lit : List Char → Option A) (s s' : Stream A) (t : SeqT) (ks : List Name)
+    (cols : List Nat) (ht : s.template = .seq t) (hcols : ks.mapM (IterData.indexOf? t.visible) = some cols) (i : GiIn)
+    (hc : i.cols = .ilist (cols.map Int.ofNat))
+    (hp : i.proj = .obj (E.map (.proj cols (s.level + 1))))
+    (h : getitem lit s (.list ks) = .ok s') :
+    runItems (giEnv E s (keyVal E (.list ks)) false i) Gen.src_iterdata_getitem
+        (streamFields ++ ["out.template", "out.template._visible_keys", "@proj_map.arg0", "@proj_map.arg1"])
+      = .ok (streamVals E s' ++ [.obj (E.tmpl s.template), strListVal (ks.map codesOf), .ilist (cols.map Int.ofNat),
+              .int (s.level + 1)]) :=
+  src_getitem_list E lit s s' t ks cols ht hcols i hc hp h
+
+/-- **`stream[n]`**: `slice(n, n + 1)` is appended to `islice` -/
+theorem C17_source_getitem_int (E : IEnc A) (lit : List Char → Option A) (s s' : Stream A) (n : Int) (i : GiIn)
+    (h : getitem lit s (.int n) = .ok s') :
+    runItems (giEnv E s (keyVal E (.int n)) false i) Gen.src_iterdata_getitem streamFields
+      = .ok (streamVals E s') := src_getitem_int E lit s s' n i h
+
+/-- **`stream[a:b:c]`**: the slice object is appended to `islice` as it is -/
+theorem C17_source_getitem_slice (E : IEnc A) (lit : List Char → Option A) (s s' : Stream A) (p : PSlice) (i : GiIn)
+    (h : getitem lit s (.slice p) = .ok s') :
+    runItems (giEnv E s (keyVal E (.slice p)) false i) Gen.src_iterdata_getitem streamFields
+      = .ok (streamVals E s') := src_getitem_slice E lit s s' p i h
+
+/-- **`stream[clause]`**: `build_filter` is called with the key and `self.root`; its filter is appended to `ifilter`, its
+    map is inserted at the FRONT of `imap` -/
+theorem C17_source_getitem_cond (E : IEnc A) (lit : List Char → Option A) (s s' : Stream A) (c : Cond) (f : Filt A)
+    (m : MapF) (i : GiIn) (hb : buildFilter lit c s.root = .ok (f, m))
+    (h0 : i.bf0 = .obj (E.filt f)) (h1 : i.bf1 = .obj (E.map m))
+    (h : getitem lit s (.cond c) = .ok s') :
+    runItems (giEnv E s (keyVal E (.cond c)) true i) Gen.src_iterdata_getitem
+        (streamFields ++ ["@build_filter.arg0", "@build_filter.arg1"])
+      = .ok (streamVals E s' ++ [.obj (E.cond c), .obj E.root]) :=
+  src_getitem_cond E lit s s' c f m i hb h0 h1 h
+
+/-- any other key (None, a float, a tuple, some other object): `KeyError`, nothing is returned -/
+theorem C17_source_getitem_other (E : IEnc A) (s : Stream A) (v : MiniPy.Val) (hv : otherKey v = true) (i : GiIn)
+    (xs : List String) :
+    runItems (giEnv E s v false i) Gen.src_iterdata_getitem xs = .error (.raised "KeyError") :=
+  src_getitem_other E s v hv i xs
+
+/-- **`__iter__`** wraps, around `iter(self.stream)`, one `filter` per entry of `ifilter` (in list order), then one `map`
+    per entry of `imap`, then one `itertools.islice(data, s.start, s.stop, s.step)` per entry of `islice`: the stages of
+    `C17_iter_normal_form`, in its order (`stagesOf`) -/
+theorem C17_source_iter (E : IEnc A) (s : Stream A) (stream : Nat) :
+    runItem [("self.stream", .obj stream), ("self.ifilter", .olist (s.ifilter.map E.filt)),
+             ("self.imap", .olist (s.imap.map E.map)), ("self.islice", .tuple (s.islice.map isliceItem))]
+        Gen.src_iterdata_iter "@ret"
+      = .ok (.pipe stream ((stagesOf s).map (encStage E))) := src_iterdata_iter_eq E s stream
+
+/-! non-vacuity of the source theorems: the streams of the example above -/
+
+open Pydap.TableVal in
+/-- a child selection and a clause on the example table: the hypotheses hold and the source, interpreted, returns the
+    fields the theorems name (tags: every closure 7, every template 3, the clause 5, `self.root` 1, `out` 2) -/
+example :
+    let E : IEnc TableVal.Val := ⟨fun _ => 7, fun _ => 7, fun _ => 3, fun _ => 5, 1, 2⟩
+    let s := mkIterData exSrc ⟨['s'], exAll, exAll⟩
+    (∃ s', getitem litVal s (.str ['f']) = .ok s' ∧ s'.level = 1) ∧
+    runItems (giEnv E s (keyVal E (.str ['f'])) false
+        { vis := strListVal (exAll.map codesOf), child := .obj 3, item := .obj 7 }) Gen.src_iterdata_getitem
+        ["out.level", "out.imap", "@item_map.arg0", "@item_map.arg1"]
+      = .ok [.int 1, .olist [7, 7], .int 1, .int 1] ∧
+    runItems (giEnv E s (keyVal E (.str ['z'])) false { vis := strListVal (exAll.map codesOf) })
+        Gen.src_iterdata_getitem ["out.level"] = .error (.raised "KeyError") ∧
+    runItems (giEnv E s (keyVal E (.cond ⟨['s', '.', 'i'], .gt, ['1']⟩)) true { bf0 := .obj 8, bf1 := .obj 9 })
+        Gen.src_iterdata_getitem ["out.ifilter", "out.imap", "@build_filter.arg1"]
+      = .ok [.olist [8], .olist [9, 7], .obj 1] := by
+  exact ⟨⟨_, rfl, rfl⟩, rfl, rfl, rfl⟩
+
+open Pydap.TableVal in
+example :
+    let E : IEnc TableVal.Val := ⟨fun _ => 7, fun _ => 8, fun _ => 3, fun _ => 5, 1, 2⟩
+    (∃ s', chain litVal (mkIterData exSrc ⟨['s'], exAll, exAll⟩) exOps = .ok s' ∧
+      (runItem [("self.stream", .obj 4), ("self.ifilter", .olist (s'.ifilter.map E.filt)),
+             ("self.imap", .olist (s'.imap.map E.map)), ("self.islice", .tuple (s'.islice.map isliceItem))]
+          Gen.src_iterdata_iter "@ret"
+        = .ok (.pipe 4 [.filt 7, .map 8, .map 8, .map 8, .map 8, .islice (some 1) none none]))) := by
+  exact ⟨_, rfl, rfl⟩
+
+end SourceTie
 
 end Pydap.C17
